@@ -598,7 +598,9 @@ class _MathShim:
         if isinstance(x, Sym):
             eng = Engine.cur
             eng.shims_hit.add("math.sqrt")
-            if not _nonneg_syntactic(x.t) and not eng.decide(x.t >= 0):
+            if _nonneg_syntactic(x.t):
+                eng.assume(x.t >= 0)  # a valid fact (sum of squares), stated for the solver's benefit
+            elif not eng.decide(x.t >= 0):
                 raise ValueError("math domain error")
             cache = eng.__dict__.setdefault("_sqrtcache", {})
             key = x.t.get_id()
